@@ -1,4 +1,5 @@
 """C02 - path matching respects separators, segments, globstar and MATCHBASE (glob mode, no REALPATH)."""
+import re
 import itertools
 
 from ..runner import Outcome, HarnessError
@@ -441,6 +442,16 @@ def count_pieces(text):
     return len([p for p in pieces if p]), inside
 
 
+def optional_pieces(text):
+    """Number of non-empty pieces that contain an (unescaped) parenthesis: a piece made of groups may match the empty string
+    (`a/*()` accepts `a/`), which the statement leaves open (nullable segment), so such pieces are not demanded."""
+    n = 0
+    for piece in re.split(r'(?<!\\)/', text):
+        if piece and re.search(r'(?<!\\)\(', piece):
+            n += 1
+    return n
+
+
 def run_textinv(desc):
     """Without GLOBSTAR/MATCHBASE every accepted path (not a bare root) has at most as many non-empty segments as the
     pattern text has non-empty '/'-delimited pieces, and exactly as many when no '/' lies inside brackets/parentheses."""
@@ -469,7 +480,7 @@ def run_textinv(desc):
                 if not segs:
                     continue
                 out.evaluations += 1
-                bad = len(segs) > npieces or (not inside and len(segs) != npieces)
+                bad = len(segs) > npieces or (not inside and len(segs) < npieces - optional_pieces(text))
                 if bad:
                     out.violation({'mode': 'textinv', 'pattern': text, 'flags': flname, 'name': p, 'pieces': npieces,
                                    'segments': len(segs)}, size=len(text) * 10 + len(p), bucket=('textinv', len(segs) > npieces))
@@ -485,7 +496,7 @@ def replay(case):
         got = G.globmatch(case['name'], case['pattern'], flags=fl)
         npieces, inside = count_pieces(case['pattern'])
         segs = R.split_path(case['name'])[1]
-        bad = got and (len(segs) > npieces or (not inside and len(segs) != npieces))
+        bad = got and (len(segs) > npieces or (not inside and len(segs) < npieces - optional_pieces(case['pattern'])))
         return (not bad), {'impl': got, 'pieces': npieces, 'segments': len(segs)}
     if case.get('mode') == 'unclosed':
         fl = lang.gl_flags(case['cfg']) | G.EXTGLOB
